@@ -187,6 +187,32 @@ fn check_type<T: Elem, U: Elem>(rep: &mut Report, r: &mut Rng, case: u64, miri: 
     if bulk.header.body_format != BodyFormat::Beve as u16 {
         rep.violation("C08:bulk-format-code", format!("body_typed_slice set body_format {}", bulk.header.body_format), desc.clone());
     }
+    // a builder that already holds a body (reused scratch bytes, an earlier setter): every body setter REPLACES the body, so the
+    // message equals the one built from a fresh builder
+    if case % 3 == 0 {
+        let prior = r.usize_below(40);
+        let junk = r.bytes(prior);
+        let which = case / 3 % 4;
+        let used = || {
+            let b0 = Message::builder().id(case).query_bytes(q.clone());
+            match which {
+                0 => b0.body_bytes(junk.clone()),
+                1 => b0.body_utf8("earlier text body"),
+                2 => b0.body_typed_slice(&xs),
+                _ => b0.body_json(&serde_json::json!({"earlier": prior})).unwrap_or_else(|_| Message::builder()),
+            }
+        };
+        let again = used().body_typed_slice(&xs).build();
+        if again.body != bulk.body || again.header.body_format != bulk.header.body_format || again.to_vec() != bulk.to_vec() {
+            rep.violation(format!("C08:bulk-setter-on-used-builder:typed:{}", ["body_bytes", "body_utf8", "body_typed_slice", "body_json"][which as usize]), format!("{} x{n}: body_typed_slice on a builder that already held a body gives {} ({} bytes), on a fresh builder {} ({} bytes)", T::NAME, hex_trunc(&again.body, 32), again.body.len(), hex_trunc(&bulk.body, 32), bulk.body.len()), desc.clone());
+        }
+        let fresh_al = Message::builder().id(case).query_bytes(q.clone()).body_aligned_typed_slice(&xs).build();
+        let again_al = used().body_aligned_typed_slice(&xs).build();
+        if again_al.to_vec() != fresh_al.to_vec() {
+            rep.violation(format!("C08:bulk-setter-on-used-builder:aligned:{}", ["body_bytes", "body_utf8", "body_typed_slice", "body_json"][which as usize]), format!("{} x{n}: body_aligned_typed_slice on a used builder differs from a fresh one ({} vs {} body bytes)", T::NAME, again_al.body.len(), fresh_al.body.len()), desc.clone());
+        }
+        rep.count("bulk_setters_on_used_builders", 2);
+    }
     if n > 0 && bulk.body != generic.body {
         rep.violation(format!("C08:bulk-vs-generic-bytes:{}", T::NAME), format!("{} x{n}: bulk body {} != generic body {}", T::NAME, hex_trunc(&bulk.body, 40), hex_trunc(&generic.body, 40)), desc.clone());
     }
